@@ -381,7 +381,7 @@ pub(crate) const MS: u64 = 1_000_000;
 
 fn pick_timeout() -> u64 {
     // the last one: Duration::MAX, i.e. the caller does not want a time-out at all
-    [1 * MS, 10 * MS, 100 * MS, 250 * MS, 1000 * MS, 5000 * MS, 60_000 * MS, 1 * MS, 10 * MS, 100 * MS, 1000 * MS, u64::MAX][choose(12) as usize]
+    [1 * MS, 10 * MS, 100 * MS, 250 * MS, 1000 * MS, 5000 * MS, 60_000 * MS, 1 * MS, 10 * MS, 100 * MS, 1000 * MS, u64::MAX, 0, 1][choose(14) as usize]
 }
 
 pub const RTU_PATH: &str = "/dev/ttySIM1";
@@ -493,6 +493,8 @@ impl Lock {
 
     /// compare everything observable since the last action; returns false on violation
     fn compare(&mut self, out: &mut RunOut, action: &str) -> bool {
+        // whatever is due at this very instant (zero time-outs, zero delays) has happened in the implementation
+        self.model.advance(0);
         let effects: Vec<Effect> = self.model.effects[self.eff_pos..].to_vec();
         self.eff_pos = self.model.effects.len();
         let mut exp_states = Vec::new();
@@ -919,6 +921,8 @@ fn run_lockstep_inner(cfg: &ScenCfg, out: &mut RunOut, rtu: bool) {
                 submit(l.rig.channel.as_ref().unwrap(), style, id, &req, unit, timeout, &l.rig.comps);
                 kernel::settle();
                 l.model.submit(Cmd::Request(ReqSpec { id, req, unit, timeout }));
+                // a time-out of zero is due at the instant of transmission
+                l.model.advance(0);
                 if outstanding {
                     out.probe("submit_behind_outstanding");
                 }
